@@ -31,7 +31,10 @@ type World struct {
 	SubIDs []uuid.UUID
 	Seed   int64
 	// deliveries as of the last dump (the next operation's "before" state)
-	lastDels map[uuid.UUID]*ent.Delivery
+	lastDels   map[uuid.UUID]*ent.Delivery
+	lastSubs   map[uuid.UUID]*ent.Subscription
+	lastMsgs   map[uuid.UUID]*ent.Message
+	lastTopics map[uuid.UUID]*ent.Topic
 }
 
 // NewWorld must be called inside a synctest bubble.
@@ -83,6 +86,10 @@ func (w *World) Dump() string {
 		w.T.Fatalf("dump: %v", err)
 	}
 	sort.Slice(ts, func(i, j int) bool { return idLess(ts[i].ID, ts[j].ID) })
+	w.lastTopics = make(map[uuid.UUID]*ent.Topic, len(ts))
+	for _, t := range ts {
+		w.lastTopics[t.ID] = t
+	}
 	sb.WriteString("T:")
 	for i, t := range ts {
 		if i > 0 {
@@ -96,6 +103,10 @@ func (w *World) Dump() string {
 		w.T.Fatalf("dump: %v", err)
 	}
 	sort.Slice(ss, func(i, j int) bool { return idLess(ss[i].ID, ss[j].ID) })
+	w.lastSubs = make(map[uuid.UUID]*ent.Subscription, len(ss))
+	for _, x := range ss {
+		w.lastSubs[x.ID] = x
+	}
 	sb.WriteString("|S:")
 	for i, s := range ss {
 		if i > 0 {
@@ -116,6 +127,10 @@ func (w *World) Dump() string {
 		w.T.Fatalf("dump: %v", err)
 	}
 	sort.Slice(ms, func(i, j int) bool { return idLess(ms[i].ID, ms[j].ID) })
+	w.lastMsgs = make(map[uuid.UUID]*ent.Message, len(ms))
+	for _, x := range ms {
+		w.lastMsgs[x.ID] = x
+	}
 	sb.WriteString("|M:")
 	for i, m := range ms {
 		if i > 0 {
